@@ -143,7 +143,8 @@ def KdfArgs.derive (D : DhOps) (a : KdfArgs) (receive : Bool) : Res Bytes :=
   let (eph, rcp) := if receive then (a.eph.2, a.rcp.1) else (a.eph.1, a.rcp.2)
   if a.mode == "1pu" then
     let snd := if receive then a.snd.2 else a.snd.1
-    deriveKeyEcdh1pu D sha256 a.target eph snd rcp a.alg a.apu a.apv a.tag receive
+    -- current tree: `pub_info` capacity = `Askar.Generated.ecdh1puPubInfoCap` (extracted from ecdh_1pu.rs)
+    deriveKeyEcdh1puCap Askar.Generated.ecdh1puPubInfoCap D sha256 a.target eph snd rcp a.alg a.apu a.apv a.tag receive
   else
     deriveKeyEcdhEs D sha256 a.target eph rcp a.alg a.apu a.apv receive
 
